@@ -124,6 +124,10 @@ class Clause:
     enum_tiers: tuple = ("quick", "thorough")
     shrink_quick: bool = True
     sample_fmt: Optional[Callable[[Any], Any]] = None
+    # coverage-guided campaign (atheris driving the same strategy + oracle), thorough tier only:
+    # runs per process and number of processes
+    fuzz_runs: int = 0
+    fuzz_procs: int = 8
     # name -> predicate(case) for findings in known_findings.json (excluded by construction)
     known_predicates: Dict[str, Callable[[Any], bool]] = field(default_factory=dict)
 
@@ -392,6 +396,54 @@ def run_sharded(prop_id, clause: Clause, tier, seed, mode, nshards) -> ClauseRes
     return res
 
 
+def ensure_atheris():
+    deps = os.path.join(VERIF_DIR, ".deps")
+    if os.path.isdir(os.path.join(deps, "atheris")):
+        return True
+    r = subprocess.run(
+        [sys.executable, "-m", "pip", "install", "-q", "--no-index", "--find-links", "/opt/veriftools/wheels",
+         "--target", deps, "atheris"], capture_output=True, text=True)
+    return r.returncode == 0 and os.path.isdir(os.path.join(deps, "atheris"))
+
+
+def run_fuzz_campaign(prop_id, clause: Clause, seed) -> Optional[ClauseResult]:
+    """atheris (libFuzzer) campaign over the clause's own strategy and oracle, several processes."""
+    if not ensure_atheris():
+        print("note: atheris is not installable here; coverage-guided campaign for %s skipped" % clause.name)
+        return None
+    rec = Recorder()
+    res = ClauseResult(clause.name + ":coverage_guided", rec)
+    t0 = time.time()
+    with tempfile.TemporaryDirectory(prefix="verif_fuzz_") as td:
+        procs = []
+        for i in range(clause.fuzz_procs):
+            out = os.path.join(td, "f%d.json" % i)
+            env = dict(os.environ)
+            p = subprocess.Popen(
+                [sys.executable, "-m", "harness.fuzz_runner", prop_id, clause.name, out, str(clause.fuzz_runs), str(seed * 100 + i + 1)],
+                cwd=VERIF_DIR, env=env, stdout=subprocess.DEVNULL, stderr=subprocess.DEVNULL)
+            procs.append((p, out))
+        for p, out in procs:
+            p.wait()
+            if not os.path.exists(out):
+                raise HarnessError("coverage-guided campaign for %s produced no output" % clause.name)
+            with open(out) as f:
+                d = json.load(f)
+            rec.merge_json(d["rec"])
+            if d.get("violation") and res.violation is None:
+                # confirm outside the fuzzer (plain call of the clause's check)
+                try:
+                    with warnings.catch_warnings():
+                        warnings.simplefilter("ignore")
+                        clause.check(d["violation"]["case"])
+                except Violation:
+                    res.violation = d["violation"]
+                except Discard:
+                    pass
+    res.wall_s = time.time() - t0
+    return res
+
+
 def run_property(mod, tier: str, argv_opts) -> int:
     prop_id = mod.PROPERTY
     seed = get_seed()
@@ -494,6 +546,12 @@ def run_property(mod, tier: str, argv_opts) -> int:
             results.append(r)
             if r.violation:
                 violations.append((clause.name, r.violation))
+            if tier == "thorough" and clause.fuzz_runs and not r.violation:
+                fr = run_fuzz_campaign(prop_id, clause, seed)
+                if fr is not None:
+                    results.append(fr)
+                    if fr.violation:
+                        violations.append((fr.clause, fr.violation))
         if clause.enumerate is not None and tier in clause.enum_tiers:
             if tier == "thorough" and clause.shards > 1:
                 r = run_sharded(prop_id, clause, tier, seed, "enum", clause.shards)
